@@ -401,17 +401,16 @@ open Frappy.Client.Reconnect
 `disconnect()` that has returned stands, the client is not connected, nobody is about to connect, and no worker thread is
 left in its loop. -/
 def shutdown_final_statement (cfg : Cfg) : Prop :=
-  ∀ s : St, Reachable cfg s → StaysShutDown s ∧ NoWorkerLeft s
+  ∀ s : St, Reachable cfg s → StaysShutDown s ∧ WorkersRunOut cfg s
 
 /-- Proved part (repaired client: `disconnect(True)` waits for every registered reconnect thread): in every reachable
 state — any number of user threads calling `disconnect()` and `request()`, any number of connections made, refused and
 lost, any number of reconnect threads, any interleaving — while the shutdown request of a returned user `disconnect()`
 stands, `self.io` is `None` and no thread is past the test of the flag inside `connect()`: no connection exists and none
 can come into being until a user asks for one.
-Missing for the full statement: `NoWorkerLeft` (that the tx / rx threads the returned `disconnect()` did not wait for —
-those of earlier connections, still finishing their own `disconnect(False)` — are out of their loops; the invariant
-needed, "`self.io is None` implies every worker has left its loop", does not hold at all program points: see the design
-notes) and termination of `disconnect()` itself (a liveness property; `marker_eaten_hangs` shows what it rules out). -/
+Missing for the full statement: `WorkersRunOut` and the termination of `disconnect()` itself — liveness properties of the
+threads that are still on their way out (`marker_eaten_hangs` shows what they rule out); the invariant one would like
+instead, "no worker in its loop once the `disconnect()` has returned", is false (`no_worker_in_loop_fails`). -/
 theorem shutdown_final_partial (cfg : Cfg) (hj : cfg.joinAll = true) (s : St) (h : Reachable cfg s) :
     StaysShutDown s := by
   intro u U hU _ hpc hs
@@ -421,6 +420,34 @@ theorem shutdown_final_partial (cfg : Cfg) (hj : cfg.joinAll = true) (s : St) (h
   · rfl
   · have := covered_isJ (inv.win u U i t hU hs ht hw).2
     simp [hpc, isJ] at this
+
+/-- Why the worker clause is about what happens *after* the return: connection 0 is lost, a request (thread 3) connects
+anew and has assigned `self.io` when a user calls `disconnect()` (thread 4), which finds no worker registered, clears
+`self.io` and returns — its request stands; the request's `connect()` then registers and releases its workers. -/
+theorem no_worker_in_loop_fails : ∃ s : St, Reachable {} s ∧ StaysShutDown s ∧ ¬ NoWorkerInLoop s := by
+  have hc : (exec {} {} [.act (.drop 0), .act (.th 1 1), .to 1 .d5, .to 0 .done, .to 1 .done, .act .newReq, .to 3 .c8,
+        .act .newDisc, .to 4 .s4, .to 2 .done, .to 4 .done, .to 3 .c12]).map (fun s =>
+      (s.th[4]?.map (fun U => U.kind == .userDisc && U.pc == .done && standing s U)) == some true
+        && (s.th[5]?.map inLoop) == some true) = some true := by decide +kernel
+  cases he : exec {} {} [.act (.drop 0), .act (.th 1 1), .to 1 .d5, .to 0 .done, .to 1 .done, .act .newReq, .to 3 .c8,
+        .act .newDisc, .to 4 .s4, .to 2 .done, .to 4 .done, .to 3 .c12] with
+  | none => rw [he] at hc; cases hc
+  | some s =>
+    rw [he] at hc
+    have hr := exec_reachable Reachable.init he
+    refine ⟨s, hr, shutdown_final_partial {} rfl s hr, fun hn => ?_⟩
+    simp only [Option.map_some, Option.some.injEq, Bool.and_eq_true, beq_iff_eq] at hc
+    cases hU : s.th[4]? with
+    | none => rw [hU] at hc; simp at hc
+    | some U =>
+      cases hT : s.th[5]? with
+      | none => rw [hT] at hc; simp at hc
+      | some T =>
+        rw [hU, hT] at hc
+        simp only [Option.map_some, Option.some.injEq, Bool.and_eq_true, beq_iff_eq] at hc
+        have := hn 4 U hU hc.1.1.1 hc.1.1.2 hc.1.2 5 T hT
+        rw [this] at hc
+        simp at hc
 
 /-- The reconnect threads never revoke a shutdown request (any configuration, any reachable state). -/
 theorem reconnect_never_revokes (cfg : Cfg) (hj : cfg.joinAll = true) (s : St) (h : Reachable cfg s) :
